@@ -338,6 +338,10 @@ def rule_dec2bin(ctx):
         if isinstance(n, ast.Assign) and isinstance(n.targets[0], ast.Name) and n.targets[0].id == num:
             if src_of(n.value).replace(" ", "") in (f"{num}//2", f"{num}>>1"):
                 halve = n
+    inc = [n for n in ast.walk(loop) if isinstance(n, ast.AugAssign) and isinstance(n.target, ast.Name) and isinstance(n.op, ast.Add) and _num(n.value) == 1 and n.target.id != num]
+    if store is not None and halve is not None and dec is None and inc and src_of(store.targets[0].slice) == inc[0].target.id:
+        ctx.violation("C19.5", fi, store, f"{src_of(store)}; {src_of(halve)}; {src_of(inc[0])}", "the least significant bit is stored first and the index increases: the expansion is little-endian, not big-endian")
+        return
     if store is None or halve is None or dec is None:
         ctx.unknown("C19.5", fi, loop, "dec2bin loop", "store / halving / index decrement idiom not recognised")
         return
@@ -462,6 +466,34 @@ def rule_str2array(ctx):
     for n in rowsplit:
         ctx.check("C19.6", n.args[0].value == ";", f2, n, f".split({n.args[0].value!r})", "rows split on ';'",
                   f"row separator {n.args[0].value!r} is not ';'")
+    # the digit-by-digit (bit pattern) branch is taken only without a numeric dtype: int, float AND complex are numeric
+    from ..absint import ClassRef
+    bool_branch = None
+    for n in f2.node.body:
+        if isinstance(n, ast.If) and "bool" in src_of(n.test):
+            bool_branch = n
+    inner = next((n for n in (bool_branch.body if bool_branch else []) if isinstance(n, ast.If)), None)
+    if inner is None:
+        ctx.unknown("C19.6", f2, f2.node, "str2array: numeric-dtype test in the 0/1 branch", "branch structure not recognised")
+    else:
+        verdict = {}
+        for nm, val in (("int", ClassRef("int")), ("float", ClassRef("float")), ("complex", ClassRef("complex")), ("bool", ClassRef("bool")), ("None", Const(None))):
+            it = Interp(pkg, param_values={f2.params[1]: val})
+            st = State({f2.params[1]: val, f2.params[0]: S(f2.params[0])})
+            verdict[nm] = it.truth(inner.test, st, f2, 0)
+        numeric_first = any(isinstance(x, ast.Call) and src_of(x.func) == "re.split" for s_ in inner.body for x in ast.walk(s_))
+        want = {"int": True, "float": True, "complex": True, "bool": False, "None": False}
+        if not numeric_first:
+            want = {k: not v for k, v in want.items()}
+        wrong = [k for k in want if verdict[k] is not None and verdict[k] != want[k]]
+        undec = [k for k in want if verdict[k] is None]
+        if wrong:
+            ctx.violation("C19.6", f2, inner, f"str2array: 0/1 text dispatch `{src_of(inner.test)}`", f"dtype {wrong} is routed to the wrong parser: text made of 0/1 digits must be read token-wise for every numeric dtype "
+                          "(int, float, complex) and digit-by-digit otherwise")
+        elif undec:
+            ctx.unknown("C19.6", f2, inner, f"str2array: 0/1 text dispatch `{src_of(inner.test)}`", f"test not decidable for dtype {undec}")
+        else:
+            ctx.holds("C19.6", f2, inner, f"str2array: 0/1 text dispatch `{src_of(inner.test)}`", "int/float/complex -> token-wise, bool/None -> digit-by-digit")
     last = f2.node.body[-1]
     ok = isinstance(last, ast.Return) and isinstance(last.value, ast.IfExp) and "astype" in src_of(last.value.body) and src_of(last.value.test) == f2.params[1]
     ctx.check("C19.6", ok, f2, last, src_of(last), "explicit dtype applied last", "explicit dtype is not applied to the parsed array at the end")
